@@ -495,6 +495,56 @@ Theorem C09_channel_writer_seekpoints : forall o L md5, (forall l, length (md5 l
           FlacCodec.Ast.h_number h = N.of_nat (length pre).
 Proof. exact channel_writer_seekpoints. Qed.
 
+(* C06 on files written through the other two front-ends, by transfer *)
+Theorem C06_byte_written_file_seeks : forall o L md5, (forall l, length (md5 l) = 16%nat) ->
+  forall p rate bps en wo ch tb wb chunks iv e rp,
+  options_wf wo -> o_seektable_interval wo = Some iv ->
+  byte_new p en [] wo rate bps ch tb = Ok wb ->
+  Forall byte_ok (concat chunks) ->
+  let samples := decoded en (N.to_nat (bytes_per_sample_of bps)) (concat chunks) in
+  forallb (FlacCodec.Wf.fits bps) samples = true ->
+  let W := N.of_nat (length samples) / ch in
+  let written := firstn (N.to_nat ch * (length samples / N.to_nat ch)) samples in
+  1 <= W -> N.of_nat (length samples) < 2 ^ 36 ->
+  match tb with Some T => T = bytes_per_sample_of bps * (ch * W) | None => True end ->
+  exists f blocks,
+    byte_run (encB o L rate bps) md5 p wb chunks = Ok f /\
+    forall pts, first_seektable (f_blocks f) = Some pts ->
+    exists table, Forall2 (point_rel blocks) pts table /\
+      let F := file_of_blocks_seek blocks ch bps (Some (FlacCodec.Enc_proofs.blocks_samples blocks)) table e rp in
+      FlacReaders.Spec.valid_file F /\ FlacReaders.Spec.pcm F = written /\
+      forall ops, Forall FlacReaders.Spec.sop_ok (snd (FlacReaders.Seek.sample_run F ops)) ->
+        let atr := map (FlacReaders.Spec.abs_s F) (snd (FlacReaders.Seek.sample_run F ops)) in
+        Forall (FlacReaders.Spec.cur_ok written) atr /\
+        FlacReaders.Spec.chained 0 atr (FlacReaders.Spec.spos F (fst (FlacReaders.Seek.sample_run F ops))) /\
+        FlacReaders.Spec.seeks_land written atr /\ FlacReaders.Spec.failed_seeks_safe written atr.
+Proof. exact byte_written_file_seeks. Qed.
+Theorem C06_channel_written_file_seeks : forall o L md5, (forall l, length (md5 l) = 16%nat) ->
+  forall p rate bps wo ch tc wc chunks iv e rp,
+  options_wf wo -> o_seektable_interval wo = Some iv ->
+  channel_new p [] wo rate bps ch tc = Ok wc ->
+  Forall (chunk_ok (N.to_nat ch)) chunks ->
+  let samples := concat (multizip (cconcat (N.to_nat ch) chunks)) in
+  forallb (FlacCodec.Wf.fits bps) samples = true ->
+  let W := N.of_nat (length samples) / ch in
+  let written := firstn (N.to_nat ch * (length samples / N.to_nat ch)) samples in
+  1 <= W -> N.of_nat (length samples) < 2 ^ 36 ->
+  match tc with Some T => T = W | None => True end ->
+  exists f blocks,
+    channel_run (encB o L rate bps) md5 p wc chunks = Ok f /\
+    forall pts, first_seektable (f_blocks f) = Some pts ->
+    exists table, Forall2 (point_rel blocks) pts table /\
+      let F := file_of_blocks_seek blocks ch bps (Some (FlacCodec.Enc_proofs.blocks_samples blocks)) table e rp in
+      FlacReaders.Spec.valid_file F /\ FlacReaders.Spec.pcm F = written /\
+      forall ops, Forall FlacReaders.Spec.sop_ok (snd (FlacReaders.Seek.sample_run F ops)) ->
+        let atr := map (FlacReaders.Spec.abs_s F) (snd (FlacReaders.Seek.sample_run F ops)) in
+        Forall (FlacReaders.Spec.cur_ok written) atr /\
+        FlacReaders.Spec.chained 0 atr (FlacReaders.Spec.spos F (fst (FlacReaders.Seek.sample_run F ops))) /\
+        FlacReaders.Spec.seeks_land written atr /\ FlacReaders.Spec.failed_seeks_safe written atr.
+Proof. exact channel_written_file_seeks. Qed.
+
+Print Assumptions C06_byte_written_file_seeks.
+Print Assumptions C06_channel_written_file_seeks.
 Print Assumptions C09_byte_writer_seekpoints.
 Print Assumptions C09_channel_writer_seekpoints.
 Print Assumptions C06_written_file_seeks_bytes_channels.
